@@ -33,31 +33,70 @@ VALUE = "serde_json::Value"
 INDEX_PATH = "<std::vec::Vec<T, A> as std::ops::Index<I>>::index"
 
 
-def bound_predicate(roles, op):
-    """(table closure body, the js predicate it applies, [operand indices], negated?)"""
+def bound_predicate(roles, op, issues=None):
+    """(table closure body, the js predicate it applies, [operand indices], negated?)
+    Two shapes are read: `Ok(Bool([!]P(items[i], items[j])))` in the bound closure, and a shared helper
+    `H(P, negate_flag, items)` whose every boolean result is `P(items[i], items[j])` combined with the flag.
+    Problems with exact negation found on the way are appended to `issues`."""
+    facts = roles.facts
     b, e = roles.fn_of(op)
     r = strip_refs(b.trace(0))
-    if not (r[0] == "agg" and r[1].get("variant") == "Ok"):
-        raise Inconclusive("operator %s does not return Ok(Bool(..)) directly" % op)
-    v = strip_refs(r[2][0])
-    if not (v[0] == "agg" and v[1].get("adt") == VALUE and v[1].get("variant") == "Bool"):
-        raise Inconclusive("operator %s does not build a Bool" % op)
-    x = strip_refs(v[2][0])
-    neg = False
-    while x[0] == "unop" and x[1] == "Not":
-        neg = not neg
-        x = strip_refs(x[2])
-    if not (x[0] == "call" and x[1] and x[1]["local"]):
-        raise Inconclusive("operator %s does not apply a predicate of the crate" % op)
-    idx = []
-    for a in x[2]:
-        a = strip_refs(a)
-        if a[0] == "call" and a[1] and a[1]["path"] == INDEX_PATH:
-            i = strip_refs(a[2][1])
-            idx.append(const_value(i[1]) if i[0] == "const" else None)
-        else:
-            idx.append(None)
-    return b, e, roles.facts.body(x[1]["key"]), idx, neg
+    vecp = 2 if b.kind == "closure" else 1
+
+    def operand_idx(body, x, vp):
+        x = strip_refs(x)
+        if x[0] == "call" and x[1] and x[1]["path"] == INDEX_PATH and strip_refs(x[2][0]) == ("arg", vp):
+            i = strip_refs(x[2][1])
+            return const_value(i[1]) if i[0] == "const" else None
+        return None
+
+    if r[0] == "agg" and r[1].get("variant") == "Ok":
+        v = strip_refs(r[2][0])
+        if not (v[0] == "agg" and v[1].get("adt") == VALUE and v[1].get("variant") == "Bool"):
+            raise Inconclusive("operator %s does not build a Bool" % op)
+        x = strip_refs(v[2][0])
+        neg = False
+        while x[0] == "unop" and x[1] == "Not":
+            neg = not neg
+            x = strip_refs(x[2])
+        if not (x[0] == "call" and x[1] and x[1]["local"]):
+            raise Inconclusive("operator %s does not apply a predicate of the crate" % op)
+        idx = [operand_idx(b, a, vecp) for a in x[2]]
+        return b, e, facts.body(x[1]["key"]), idx, neg
+    # shared helper with a negation flag
+    if r[0] == "call" and r[1] and r[1]["local"]:
+        h = facts.body(r[1]["key"])
+        pred = flag = None
+        flag_pos = vec_pos = None
+        for i, a in enumerate(r[2]):
+            a0 = strip_refs(a)
+            if a0[0] == "const" and "fn" in a0[1]:
+                pred = facts.body((a0[1]["fn"].get("resolved") or a0[1]["fn"])["key"])
+            elif a0[0] == "const" and isinstance(const_value(a0[1]), bool):
+                flag, flag_pos = const_value(a0[1]), i + 1
+            elif a0 == ("arg", vecp):
+                vec_pos = i + 1
+        if pred is None or vec_pos is None:
+            raise Inconclusive("operator %s forwards to %s in a shape that cannot be read" % (op, h.key))
+        idx = None
+        unit = roles.unit(h.key)
+        for hb in unit:
+            for bi, si, st in hb.stmts():
+                if st["k"] == "Assign" and st["rv"]["k"] == "Aggregate" and st["rv"].get("adt") == VALUE and st["rv"].get("variant") == "Bool":
+                    x = strip_refs(hb.xtrace(st["rv"]["ops"][0]))
+                    mentions_flag = flag_pos is not None and expr_mentions(x, lambda y: y == ("arg", flag_pos))
+                    calls_pred = []
+                    expr_mentions(x, lambda y: calls_pred.append(y) if (y[0] == "call" and y[1] and y[1]["path"].startswith("std::ops::Fn") and y[1]["path"].endswith("::call")) else False)
+                    if flag_pos is not None and not mentions_flag and issues is not None:
+                        issues.append((hb, bi, si, "the shared helper %s returns %s regardless of its negation flag: the negated operator is not the exact negation on that path" % (h.key.split("::", 1)[1], show_expr(x)[:60])))
+                    for cp in calls_pred:
+                        tup = strip_refs(cp[2][1]) if len(cp[2]) > 1 else None
+                        if tup is not None and tup[0] == "agg" and len(tup[2]) == 2:
+                            idx = [operand_idx(hb, tup[2][0], vec_pos), operand_idx(hb, tup[2][1], vec_pos)]
+        if idx is None:
+            raise Inconclusive("the helper %s never applies the predicate to two operands" % h.key)
+        return b, e, pred, idx, bool(flag)
+    raise Inconclusive("operator %s does not return Ok(Bool(..)) directly" % op)
 
 
 def negation_of(facts, fneg, fpos):
@@ -88,8 +127,11 @@ def run(ctx):
         facts = ctx.facts(cfg)
         roles = Roles(facts)
         # ---------------- K1
-        b_eq, e_eq, f_eq, idx_eq, neg_eq = bound_predicate(roles, "==")
-        b_ne, e_ne, f_ne, idx_ne, neg_ne = bound_predicate(roles, "!=")
+        issues = []
+        b_eq, e_eq, f_eq, idx_eq, neg_eq = bound_predicate(roles, "==", issues)
+        b_ne, e_ne, f_ne, idx_ne, neg_ne = bound_predicate(roles, "!=", issues)
+        for (hb, bi, si, what) in issues:
+            ctx.fail("K1.negation", "flag-independent result in %s" % hb.key.split("::", 1)[1], what, where=hb.where(bi, si), fn=hb.key)
         for op, e, idx, neg in (("==", e_eq, idx_eq, neg_eq), ("!=", e_ne, idx_ne, neg_ne)):
             ctx.check(e.num == ("Exactly", 2) and idx == [0, 1], "K1.binding", "%s takes exactly two operands, (operand 0, operand 1) in order (%s)" % (op, cfg),
                       "%s: arity %s, operand indices %s" % (op, e.num, idx), where=roles.facts.body(e.table.const_key).where(), nontrivial=True)
@@ -101,6 +143,9 @@ def run(ctx):
                       sample={"eq": f_eq.key, "ne": f_ne.key})
         # ---------------- K4 (also gives the conversion's key)
         s2n = strnum.check(ctx, facts, cfg, clause="K4")
+        # the string form through which containers are compared (structure as in C16 K4)
+        from .c16 import to_string_role, string_form_clauses
+        string_form_clauses(ctx, facts, roles, to_string_role(facts), cfg, "K5")
         # ---------------- K2 / K3
         m = pairs.pair_matrix(roles, f_eq, str_to_number_key=s2n.key)
         ctx.floor("kind pairs (%s)" % cfg, len(m), 36)
